@@ -47,7 +47,10 @@ func Rate() api.Builder {
 func NewWorker(concurrency int) api.WorkTriggerer {
 	return func(ctx context.Context, _ *ui.Output, workers *workers.PoolManager, _ options.RunOptions) {
 		pool := workers.NewContinuousPool(concurrency)
-		pool.Start(ctx)
-		<-workers.WaitForCompletion()
+		workerCtx := pool.Start(ctx)
+
+		// return once triggering stops, like the rate based triggers, so that the run applies its
+		// completion timeout to iterations still in flight instead of waiting for them indefinitely
+		<-workerCtx.Done()
 	}
 }
